@@ -217,6 +217,13 @@ def c01(tier):
                     ["SETNX", "n", "5"], ["SET", "n", "5", "NX"], ["SET", "n", "5", "XX"], ["SET", "n", "5", "GET"], ["SET", "n", "5", "XX", "GET"], ["MGET", "n", "n"]):
             steps += [op(0, "DEL", "n")] + ([op(0, "SET", "n", v)] if v is not None else []) + [op(0, *cmd), op(0, "GET", "n"), op(0, "EXISTS", "n"), op(0, "TYPE", "n")]
     cases.append(("c01-counters", "mem", steps))
+    # a write after the deadline passed (record not yet collected) creates a fresh key
+    steps = []
+    for cmd in (["INCR", "e"], ["APPEND", "e", "x"], ["SETRANGE", "e", "1", "y"], ["SETBIT", "e", "7", "1"], ["SET", "e", "w"], ["SETNX", "e", "w"],
+                ["GETSET", "e", "w"], ["INCRBYFLOAT", "e", "1"], ["MSET", "e", "w"], ["SET", "e", "w", "KEEPTTL"], ["SET", "e", "w", "XX"], ["DECRBY", "e", "2"]):
+        steps += [op(0, "SET", "e", "10", "PX", "1"), x("SLEEP", "3"), op(0, *cmd), op(0, "GET", "e"), op(0, "PTTL", "e"), op(0, "EXISTS", "e"), op(0, "DEL", "e")]
+    cases.append(("c01-expired-recreate", "mem", steps))
+    cases.append(("c01-expired-recreate-peb", "peb", steps))
     # keyspace commands over every type
     mk = {"str": ["SET", "k", "v"], "list": ["RPUSH", "k", "a"], "hash": ["HSET", "k", "f", "v"], "set": ["SADD", "k", "a"], "zset": ["ZADD", "k", "1", "a"]}
     steps = []
